@@ -51,3 +51,15 @@ impl LuaIndex for LuaDependencyIndex {
         self.dependencies.clear();
     }
 }
+
+#[cfg(feature = "verif-hooks")]
+impl LuaDependencyIndex {
+    /// verif hook H1: entry counts of every map of this index
+    pub fn verif_sizes(&self, out: &mut Vec<(String, usize)>) {
+        out.push(("dependency.dependencies".into(), self.dependencies.len()));
+        out.push((
+            "dependency.dependencies.sum".into(),
+            self.dependencies.values().map(|v| v.len()).sum(),
+        ));
+    }
+}
